@@ -50,6 +50,17 @@ CHECKS["C12"] = dict(
    note="Trusted: fork isolation (the parent never builds PEPit objects), determinism of cvxpy canonicalisation and CLARABEL on identical input.",
    design="DESIGN.md §3 C12")
 
+CHECKS["C04"] = dict(
+   technique="property-based testing (Hypothesis): generated sample histories per class; oracle 1 = exact set comparison of the generated constraint functionals with an independently transcribed reference (documented interpolation conditions on every required pair); oracle 2 = metamorphic twin solves under permuted declaration order",
+   text="Generated-input search over classes, admissible parameters, sample histories (leaf / combination points, repeated evaluations, stationary and fixed points, adjoint samples, infimal displacement vector) and declaration orders: the affine functionals PEPit generates (with sense; LMIs symmetrised) must equal those of vf/refconds.py modulo positive scaling and duplicates; the same samples declared in two orders must give the same worst-case value.",
+   note="Trusted: vf/refconds.py (transcribed from docstrings / cited theorems), vf/sem.py, CLARABEL for the twin solves. Existence of an interpolating function is inherited from the cited theorems. One open known finding (skew-symmetric diagonal condition).",
+   design="DESIGN.md §3 C04, Appendix A")
+CHECKS["C14"] = dict(
+   technique="property-based testing (Hypothesis): differential (plain solve vs solve with dimension reduction of the same generated program, both back-ends) with the certificate and instance oracles, plus a white-box read of the constraint added before the heuristic",
+   text="Generated-input search over models (incl. ones whose true worst case has tiny but real eigenvalues), heuristics, tolerances, regularisations, back-ends and return modes: dual bound and certificate are those of the plain problem, primal value within the stated tolerance of the optimum and below the dual bound, returned instance feasible and consistent with the solver's Gram matrix, trace not increased by the trace heuristic.",
+   note="Trusted: vf/sem.py, CLARABEL, stand-in mosek for the MOSEK half; solver failures inside the heuristic re-solve are inconclusive.",
+   design="DESIGN.md §3 C14")
+
 NOT_APPLICABLE = []
 
 def main():
